@@ -24,7 +24,8 @@ type Clause struct {
 }
 
 type Hint struct {
-	Where string // entry, exit, head, back, after:<callee>#<n>
+	Where     string // entry, exit, head, back, after:<callee>#<n>
+	SplitOnly bool   // label suffix @split: only used in the pass that proves the split clauses
 	Clause
 }
 
@@ -40,6 +41,7 @@ type Split struct {
 	Lo, Hi int
 	Table  string // split a struct parameter over the rows of a package-level table
 	Expr   *Expr  // split over the value of an expression of the parameters
+	For    []string // if set: the split is only used to prove these ensures labels (second pass)
 }
 
 type Contract struct {
@@ -60,6 +62,8 @@ type Contract struct {
 	Pure     bool
 	Extern   bool
 	SameAs   string
+	NoMerge  bool
+	Ghosts   []string // ghost results: existential witnesses of the postconditions
 	Tags     map[string][]string
 	File     string
 	Line     int
@@ -93,7 +97,7 @@ type ContractSet struct {
 
 var clauseKW = map[string]bool{"requires": true, "ensures": true, "modifies": true, "panics": true, "onpanic": true,
 	"loop": true, "hint": true, "status": true, "split": true, "inline": true, "pure": true,
-	"induction": true, "use": true, "axiom": true, "same": true, "tags": true}
+	"induction": true, "use": true, "axiom": true, "same": true, "tags": true, "ghost": true, "nomerge": true}
 
 var hdrFunc = regexp.MustCompile(`^func\s+(?:\(\s*\w*\s*\*?\s*([\w.]+)\s*\)\s*)?([\w.$]+)`)
 var labelRe = regexp.MustCompile(`^\[([^\]]*)\]`)
@@ -406,7 +410,12 @@ func (cs *ContractSet) loadFile(path string) error {
 				if err != nil {
 					return err
 				}
-				cur.Hints = append(cur.Hints, &Hint{Where: wh, Clause: *c})
+				so := false
+				if strings.HasSuffix(wh, "@split") {
+					so = true
+					wh = strings.TrimSuffix(wh, "@split")
+				}
+				cur.Hints = append(cur.Hints, &Hint{Where: wh, Clause: *c, SplitOnly: so})
 			case "status":
 				fs := strings.Fields(rest)
 				if len(fs) == 0 {
@@ -415,28 +424,27 @@ func (cs *ContractSet) loadFile(path string) error {
 				cur.Status = fs[0]
 				cur.Note = strings.TrimSpace(rest[len(fs[0]):])
 			case "split":
-				// split v in lo..hi
-				var v string
-				var lo, hi int
-				if i := strings.LastIndex(rest, " in "); i > 0 && !strings.Contains(rest, " table ") && strings.ContainsAny(rest[:i], "%/+-*(") {
-					ex, err := parseSpec(rest[:i])
-					if err != nil {
-						return fmt.Errorf("%s: %v", where, err)
+				var forLabels []string
+				if i := strings.LastIndex(rest, " for "); i > 0 {
+					for _, l := range strings.Split(rest[i+5:], ",") {
+						forLabels = append(forLabels, strings.TrimSpace(l))
 					}
-					if _, err := fmt.Sscanf(strings.ReplaceAll(rest[i+4:], "..", " "), "%d %d", &lo, &hi); err != nil {
-						return fmt.Errorf("%s: split <expr> in lo..hi: %v", where, err)
+					rest = strings.TrimSpace(rest[:i])
+				}
+				sp, err := parseSplit(rest)
+				if err != nil {
+					return fmt.Errorf("%s: %v", where, err)
+				}
+				sp.For = forLabels
+				cur.Splits = append(cur.Splits, sp)
+			case "nomerge":
+				cur.NoMerge = true
+			case "ghost":
+				for _, g := range strings.Split(rest, ",") {
+					if g = strings.TrimSpace(g); g != "" {
+						cur.Ghosts = append(cur.Ghosts, g)
 					}
-					cur.Splits = append(cur.Splits, Split{Var: rest[:i], Lo: lo, Hi: hi, Expr: ex})
-					continue
 				}
-				if fs := strings.Fields(rest); len(fs) == 4 && fs[1] == "in" && fs[2] == "table" {
-					cur.Splits = append(cur.Splits, Split{Var: fs[0], Table: fs[3]})
-					continue
-				}
-				if _, err := fmt.Sscanf(strings.ReplaceAll(rest, "..", " "), "%s in %d %d", &v, &lo, &hi); err != nil {
-					return fmt.Errorf("%s: split v in lo..hi: %v", where, err)
-				}
-				cur.Splits = append(cur.Splits, Split{Var: v, Lo: lo, Hi: hi})
 			case "same":
 				cur.SameAs = strings.Fields(rest)[0]
 			case "tags":
@@ -522,4 +530,28 @@ func parseExprList(s string) ([]*Expr, error) {
 		return nil, err
 	}
 	return out, nil
+}
+
+// parseSplit parses "v in lo..hi", "<expr> in lo..hi" or "v in table T".
+func parseSplit(rest string) (Split, error) {
+	var lo, hi int
+	if fs := strings.Fields(rest); len(fs) == 4 && fs[1] == "in" && fs[2] == "table" {
+		return Split{Var: fs[0], Table: fs[3]}, nil
+	}
+	i := strings.LastIndex(rest, " in ")
+	if i <= 0 {
+		return Split{}, fmt.Errorf("split <var|expr> in lo..hi")
+	}
+	if _, err := fmt.Sscanf(strings.ReplaceAll(rest[i+4:], "..", " "), "%d %d", &lo, &hi); err != nil {
+		return Split{}, fmt.Errorf("split bounds: %v", err)
+	}
+	lhs := strings.TrimSpace(rest[:i])
+	if strings.ContainsAny(lhs, "%/+-*(?. ") {
+		ex, err := parseSpec(lhs)
+		if err != nil {
+			return Split{}, err
+		}
+		return Split{Var: lhs, Lo: lo, Hi: hi, Expr: ex}, nil
+	}
+	return Split{Var: lhs, Lo: lo, Hi: hi}, nil
 }
